@@ -2,6 +2,8 @@ package props
 
 import (
 	"reflect"
+	"sort"
+	"strings"
 	"testing"
 
 	"pgregory.net/rapid"
@@ -39,6 +41,19 @@ func catchHasIssuePath(n *model.Node) bool {
 		}
 	})
 	return f
+}
+
+// issueParams: path, code and params of every issue outside the given paths, sorted.
+func issueParams(r *model.Result, skip map[string]bool) string {
+	var out []string
+	for _, is := range r.All() {
+		if is == nil || skip[is.Path] {
+			continue
+		}
+		out = append(out, is.Path+"|"+is.Code+"|"+canonParams(is.Params))
+	}
+	sort.Strings(out)
+	return strings.Join(out, " ")
 }
 
 // stripCatch returns a deep copy of the schema with every Catch removed.
@@ -130,6 +145,10 @@ func propC05(reps int) func(model.Case) hh.Verdict {
 			// (messages included: what a catching node swallowed must not show up in a sibling's issue)
 			if gotM := res.Norm(true); !model.EqualIss(gotM, other) {
 				return hh.Fail("non-interference (run %d): with Catch %s, catch-free twin (minus the catching nodes' own issues) %s", r, fmtIss(gotM), fmtIss(other))
+			}
+			// ... and neither must the params the other nodes' tests were declared with go missing
+			if g, w := issueParams(res, nil), issueParams(res2, catchPaths); g != w {
+				return hh.Fail("non-interference (run %d): params of the issues away from the catching nodes differ: with Catch %s, twin %s", r, g, w)
 			}
 			d1, d2 := model.DeepCopy(dest.Elem()), model.DeepCopy(dest2.Elem())
 			for _, co := range spec.Catches {
